@@ -147,7 +147,8 @@ fn symmetry(t: &mut Tape, ctx: &mut Ctx, al: gen::Alpha) -> CheckResult {
     // negative control: the oracle must tell apart diagrams with equal types and label multisets
     if !a.is_empty() {
         let aa = cat(&a, &a);
-        let s = m(ctx, &tw(&a, &a), "sigma_{A,A}")?;
+        // built on the model, so that the control validates the oracle and not the library
+        let s = Diagram::twist(&a, &a);
         if iso(&s, &Diagram::identity(&aa)).is_iso() {
             panic!("harness: negative control failed: sigma_{{A,A}} reported isomorphic to id for A = {:?}", a);
         }
